@@ -48,3 +48,20 @@ package main
 //@   ensures [total] true
 //@   loop 1 invariant [elements-backed-by-input] r == r0 && avail(r) <= old(avail(r)) && 0 <= len(out) && uint64(len(out)) <= old(avail(r)) - avail(r)
 //@   loop 2 invariant [fields-bounded] 0 <= len(line) && uint64(len(line)) <= old(avail(r)) && len(out) == len(fields) && (forall j int :: 0 <= j && j < len(fields) ==> 0 <= len(fields[j]) && len(fields[j]) <= len(line))
+
+// C29: INCR family arithmetic is exact in int64 or reports overflow.
+
+//@ func negateDelta
+//@   property C29
+//@   ensures [negation-exact] result1 ==> math(result) == 0 - math(delta)
+//@   ensures [refuses-only-min] result1 <==> delta != -9223372036854775808
+//@   modifies nothing
+
+// The read-modify-write closure of embeddedBackend.IncrBy: on success the stored result
+// is the mathematical sum; the overflow error is returned only when the sum does not
+// fit. (current, delta, result are the closure's local / captured variables.)
+//@ func (*embeddedBackend).IncrBy$1
+//@   property C29
+//@   ensures [exact-sum] ret == nil ==> math(result) == math(current) + math(delta)
+// (not claimed: 'overflow is reported only when the sum does not fit' - other error returns of the
+// transaction callbacks may carry the same sentinel, the clause cannot be stated per return site)
